@@ -1,6 +1,9 @@
 package otp
 
-import "time"
+import (
+	"net/url"
+	"time"
+)
 
 // Library operations as function symbols for the REST-layer harnesses (C18): "the library's
 // result for precisely these parameters" is then term equality; what the symbols mean is
@@ -104,3 +107,19 @@ func verifStubAPI_ValidateOCRA(secret, code string, suite Suite, in OCRAInput) (
 	}
 	return false, ErrInvalidCode
 }
+
+// the URL builders as one function symbol of (type, issuer, account, secret, digits, hash, period)
+func verifStubAPI_URL(kind uint64, p URLParam) (*url.URL, error) {
+	r := verifUFv("GenerateURL", 9, verifPackStr(p.Issuer, p.AccountName, p.Secret), kind, uint64(p.Digits), uint64(p.Algorithm), uint64(p.Period))
+	if r[0]&1 == 1 {
+		return nil, ErrUnsupportedAlgorithm
+	}
+	host := "totp"
+	if kind == 1 {
+		host = "hotp"
+	}
+	return &url.URL{Scheme: "otpauth", Host: host, Path: "/" + string(r[1:9])}, nil
+}
+
+func verifStubAPI_GenerateTOTPURL(p URLParam) (*url.URL, error) { return verifStubAPI_URL(0, p) }
+func verifStubAPI_GenerateHOTPURL(p URLParam) (*url.URL, error) { return verifStubAPI_URL(1, p) }
